@@ -258,6 +258,109 @@ Qed.
 End Linear.
 
 (* ===================================================================== *)
+
+(* Step size and generator enter only through the product dt * L:
+   a step of size dt with right-hand side L is a step of size 1 with
+   right-hand side dt.L (same tableau, same state). *)
+Section Scaling.
+Variables C V : Type.
+Variables cadd cmul : C -> C -> C.
+Variables czero cone : C.
+Variable ciszero : C -> bool.
+Variable vadd : V -> V -> V.
+Variable vscal : C -> V -> V.
+Variable vzero : V.
+Variable L : V -> V.
+Hypothesis cmul_comm : forall a b, cmul a b = cmul b a.
+Hypothesis cmul_1_l : forall a, cmul cone a = a.
+Hypothesis vadd_0_r : forall v, vadd v vzero = v.
+Hypothesis vscal_mul : forall a b v, vscal (cmul a b) v = vscal a (vscal b v).
+Hypothesis ciszero_sound : forall c v, ciszero c = true -> vscal c v = vzero.
+Variable tb : tableau C.
+Variable dt : C.
+
+Let Ls (v : V) : V := vscal dt (L v).
+
+Notation acc := (accumulate C V cmul ciszero vadd vscal).
+
+Lemma iadd_sem l r c : iadd C V ciszero vadd vscal l r c = vadd l (vscal c r).
+Proof.
+  unfold iadd. destruct (ciszero c) eqn:E; [|reflexivity].
+  now rewrite (ciszero_sound c r E), vadd_0_r.
+Qed.
+
+Lemma acc_scaled size : forall factors ks target,
+  acc target factors dt ks size = acc target factors cone (map (vscal dt) ks) size.
+Proof.
+  induction size as [|n IH]; intros factors ks target; [reflexivity|].
+  destruct factors as [|f fs]; [reflexivity|].
+  destruct ks as [|k ks']; [reflexivity|].
+  simpl. rewrite IH. f_equal. rewrite !iadd_sem. f_equal.
+  rewrite cmul_1_l, cmul_comm, vscal_mul. reflexivity.
+Qed.
+
+Lemma stages_scaled n : forall t y i ks,
+  map (vscal dt)
+      (stages_from C V cadd cmul czero ciszero vadd vscal (fun _ => L) tb t y dt i n ks)
+  = stages_from C V cadd cmul czero ciszero vadd vscal (fun _ => Ls) tb t y cone i n
+                (map (vscal dt) ks).
+Proof.
+  induction n as [|n IH]; intros t y i ks; [reflexivity|].
+  simpl. rewrite IH, map_app. simpl. f_equal. f_equal. f_equal.
+  unfold stage, Ls. now rewrite acc_scaled.
+Qed.
+
+Lemma step_scaled t y :
+  compute_step C V cadd cmul czero ciszero vadd vscal (fun _ => L) tb t y dt
+  = compute_step C V cadd cmul czero ciszero vadd vscal (fun _ => Ls) tb t y cone.
+Proof.
+  unfold compute_step, front_of, compute_ks.
+  rewrite acc_scaled, stages_scaled. reflexivity.
+Qed.
+End Scaling.
+
+(* both together: y_front = sum_j p_j (dt L)^j y_prev with p the symbolic run
+   of the kernel at step size 1 *)
+Section TaylorForm.
+Variables C V : Type.
+Variables cadd cmul : C -> C -> C.
+Variables czero cone : C.
+Variable ciszero : C -> bool.
+Variable vadd : V -> V -> V.
+Variable vscal : C -> V -> V.
+Variable vzero : V.
+Variable L : V -> V.
+Hypothesis cmul_comm : forall a b, cmul a b = cmul b a.
+Hypothesis cmul_1_l : forall a, cmul cone a = a.
+Hypothesis ciszero_sound : forall c v, ciszero c = true -> vscal c v = vzero.
+Hypothesis vadd_comm : forall u v, vadd u v = vadd v u.
+Hypothesis vadd_assoc : forall u v w, vadd u (vadd v w) = vadd (vadd u v) w.
+Hypothesis vadd_0_r : forall v, vadd v vzero = v.
+Hypothesis vscal_add_l : forall a b v, vscal (cadd a b) v = vadd (vscal a v) (vscal b v).
+Hypothesis vscal_add_r : forall c u v, vscal c (vadd u v) = vadd (vscal c u) (vscal c v).
+Hypothesis vscal_mul : forall a b v, vscal (cmul a b) v = vscal a (vscal b v).
+Hypothesis vscal_0 : forall v, vscal czero v = vzero.
+Hypothesis vscal_1 : forall v, vscal cone v = v.
+Hypothesis vscal_z : forall c, vscal c vzero = vzero.
+Hypothesis L_add : forall u v, L (vadd u v) = vadd (L u) (L v).
+Hypothesis L_scal : forall c v, L (vscal c v) = vscal c (L v).
+
+Lemma step_taylor_form (tb : tableau C) (t dt : C) (y : V) :
+  compute_step C V cadd cmul czero ciszero vadd vscal (fun _ => L) tb t y dt
+  = peval C V vadd vscal vzero (fun v => vscal dt (L v)) y
+      (compute_step C (list C) cadd cmul czero ciszero
+         (padd C cadd) (pscal C cmul) (fun _ => pshift C czero) tb t [cone] cone).
+Proof.
+  rewrite (step_scaled C V cadd cmul czero cone ciszero vadd vscal vzero L
+             cmul_comm cmul_1_l vadd_0_r vscal_mul ciszero_sound tb dt t y).
+  apply (step_is_polynomial C V cadd cmul czero cone ciszero vadd vscal vzero
+           (fun v => vscal dt (L v))); auto.
+  - intros u v. now rewrite L_add, vscal_add_r.
+  - intros c v. rewrite L_scal, <- !vscal_mul. now rewrite cmul_comm.
+Qed.
+End TaylorForm.
+
+(* ===================================================================== *)
 (* State packing: unstack . stack = id on the index level, for every shape *)
 Lemma unstack_stack_fun {A} (n : nat) (X : nat -> nat -> A) i j :
   (i < n)%nat -> unstack_fun n (stack_fun n X) i j = X i j.
